@@ -31,6 +31,7 @@ fn main() {
         "tree" => suite_tree::run(seed, count, tier, &mut sink),
         "forest" => suite_forest::run(seed, count, tier, &mut sink),
         "rt" => suite_rt::run(seed, count, tier, &mut sink),
+        "exec-forest" => suite_forest::exec_stdin(&mut sink),
         "idmap" => suite_idmap::run(seed, count, tier, &mut sink),
         _ => {
             eprintln!("unknown suite {}", suite);
